@@ -56,6 +56,10 @@ def kSUBSTORE : Str := ['S', 'U', 'B', 'S', 'T', 'O', 'R', 'E']
 def kTEXT : Str := ['T', 'E', 'X', 'T']
 def kDATA : Str := ['D', 'A', 'T', 'A']
 
+/-- the keywords `Constraint::parse` knows and this model does not cover -/
+def otherKeywords : List Str :=
+  ["ANNOTATION".toList, "RESOURCE".toList, "RELATION".toList, "VALUE".toList, "KEY".toList, "[".toList, "LIMIT".toList]
+
 def arg (isDt : Str â†’ Bool) (s : Str) : Out (Str Ã— Str Ã— ArgType) :=
   match getArg isDt s with
   | some r => .ok r
@@ -192,7 +196,8 @@ def parseCn (parseI : Str â†’ Option Int) (parseF : Str â†’ Bool) (isDt : Str â†
       | .panic e => .panic e
     | .err e => .err e
     | .panic e => .panic e
-  else .err "unmodelled"
+  else if otherKeywords.contains w then .err "unmodelled"
+  else .err "syntax"
 
 /-! ## printing -/
 
